@@ -63,6 +63,24 @@ def run(out, tier, seed):
     nrand = 300 if tier == "quick" else 3000
     for _ in range(nrand):
         cases.append({"id": len(cases), "src": "random", "ops": random_history(rng, rng.randint(6, 30))})
+    # a probe deactivated from inside a call of the function it looks at (where f calls g), among probes on f's and g's own
+    # variables; with-block order otherwise
+    INCALL = ["p1", "p2", "p4", "p5", "p8", "p14"]
+    for _ in range(60 if tier == "quick" else 1200):
+        ops = random_history(rng, rng.randint(5, 20), INCALL, lifo=True)
+        status, order = {}, []
+        out_ops = []
+        for o in ops:
+            if o[0] == "act" and status.get(o[1]) is None:
+                status[o[1]] = "active"
+                order.append(o[1])
+            if o[0] == "deact":
+                order.remove(o[1])
+                status[o[1]] = "done"
+                if rng.random() < 0.5:
+                    o = ["calld", rng.randint(1, 30), o[1]]
+            out_ops.append(o)
+        cases.append({"id": len(cases), "src": "incall", "ops": out_ops})
     traces = L.run_histories(cases, work)
     # the same kind of histories on functions that were tooled in place beforehand, with a plain overlay (no tooling of its
     # own) among the probes: selective tooling by probing() must not starve it (with-block order only)
@@ -79,7 +97,7 @@ def run(out, tier, seed):
         for tag, rest in items:
             if tag == "FAIL":
                 f = rest[0]
-                sig = {"clause": f["clause"], "nonlifo": f["nonlifo"], "mech": f["mech"]}
+                sig = {"clause": f["clause"], "nonlifo": f["nonlifo"], "mech": f["mech"], "incall": f.get("incall", False)}
             else:
                 sig = {"clause": "Incomplete"}
             out.judge(sig, {"case": by_id[tid], "verdict": [tag, rest]})
@@ -111,5 +129,5 @@ def replay(out, path):
     for tid, items in fails.items():
         for tag, rest in items:
             f = rest[0] if tag == "FAIL" else {"clause": "Incomplete", "nonlifo": False, "mech": False}
-            out.judge({"clause": f["clause"], "nonlifo": f.get("nonlifo"), "mech": f.get("mech")}, {"case": case, "verdict": [tag, rest]})
+            out.judge({"clause": f["clause"], "nonlifo": f.get("nonlifo"), "mech": f.get("mech"), "incall": f.get("incall", False)}, {"case": case, "verdict": [tag, rest]})
     out.samples.append({"replayed": path, "fails": len(fails)})
